@@ -231,6 +231,16 @@ pub fn gen(rng: &mut Rng, thorough: bool, out: &mut Sink) {
     for k in 0..n {
         let mut def = gen_full_definition(rng, false, k % 3 == 0);
         spice(rng, &mut def);
+        // Unigram: infinite and extreme scores survive the export bit for bit
+        if let Model::Unigram { scores, .. } = &mut def.model {
+            if rng.chance(1, 2) {
+                for sc in scores.iter_mut() {
+                    if rng.chance(1, 4) {
+                        *sc = *rng.pick(&[f32::NEG_INFINITY, f32::INFINITY, f32::MIN, f32::MAX, -0.0, f32::MIN_POSITIVE, -1.0e-45]);
+                    }
+                }
+            }
+        }
         // WordPiece: a vocabulary entry that is exactly the continuation prefix
         if let Model::WordPiece { vocab, .. } = &mut def.model {
             let prefix = def.config.templates.iter().find(|t| t.position == InsertionPosition::WordContinuation).map(|t| t.content.clone());
@@ -253,7 +263,13 @@ pub fn gen(rng: &mut Rng, thorough: bool, out: &mut Sink) {
                 let mut s: Vec<(u32, Vec<u8>, String, Option<String>, u32, bool)> =
                     d.specials.iter().map(|s| (s.id, s.bytes.clone(), format!("{:?}", s.kind), s.ident.clone(), s.score.to_bits(), s.extract)).collect();
                 s.sort();
-                (v, s, format!("{:?}", d.config))
+                // unigram scores by token id, bit for bit
+                let mut sc: Vec<(u32, u32)> = match &d.model {
+                    Model::Unigram { vocab, scores } => vocab.iter().zip(scores.iter()).map(|(t, x)| (t.id, x.to_bits())).collect(),
+                    _ => Vec::new(),
+                };
+                sc.sort();
+                (v, s, format!("{:?}", d.config), sc)
             };
             Some(key(&def) == key(&e))
         });
